@@ -3,12 +3,14 @@ use crate::fw::Ctx;
 pub mod c01;
 pub mod c03;
 pub mod c13;
+pub mod c19;
 
 pub fn run(ctx: &Ctx) -> bool {
     match ctx.prop {
         "C01" => c01::run(ctx),
         "C03" => c03::run(ctx),
         "C13" => c13::run(ctx),
+        "C19" => c19::run(ctx),
         _ => return false,
     }
     true
